@@ -190,6 +190,8 @@ class Sched:
         self.locks = []
         self._rv = {"holder": None, "file": None, "line": 0, "ran": 0, "burst": 0}
         self._inserted = False
+        self._ls = {"owner": None, "left": 0, "hunt": 0, "budget": 16}
+        self.aligned_points = 0
         # threads blocked in a *real* wait (a Future, Condition, Queue, join ... that the engine or a change to
         # it introduced): the watchdog takes the baton away from such a thread, it re-enters when it wakes up
         self._wd_lock = threading.Lock()
@@ -485,6 +487,43 @@ class Sched:
         elif k == "phase":
             if phase and self.rng.random() < self.strategy.get("p", 0.5):
                 self._handoff(me, where=self._where(frame))
+        elif k == "lockstep":
+            # symmetric races: two threads on (nearly) the same code path are kept *aligned*.  When the running thread
+            # arrives at the very (file, line) where the other one is parked, the other executes `period` lines, then
+            # this one catches up, and so on - so both are inside every window of period+1 statements at the same time
+            # (increment-then-read of a process-global counter, check-then-create of a shared name); whole-call insertion
+            # and random switching reach such windows only by luck.  When the paths diverge (first-use initialisation
+            # in one thread, different scripts) the running thread hunts for the other's position for a budget of line
+            # events, then the other hunts with twice the budget, until they meet again.
+            if not opcode and not phase:
+                pos = (frame.f_code.co_filename, frame.f_lineno)
+                me["pos"] = pos
+                st = self._ls
+                if st["owner"] == me["name"]:
+                    st["left"] -= 1
+                    if st["left"] > 0:
+                        return
+                    st["owner"] = None
+                    st["hunt"] = 0
+                    self._handoff(me, where=self._where(frame))
+                    return
+                others = [n for n in self._runnable() if n != me["name"]]
+                if not others:
+                    return
+                o = self.threads[others[0]]
+                if o.get("pos") == pos:
+                    self.aligned_points += 1
+                    st["budget"] = 16
+                    st["hunt"] = 0
+                    st["owner"] = o["name"]
+                    st["left"] = self.strategy.get("period", 1)
+                    self._handoff(me, to=o["name"], where=self._where(frame))
+                else:
+                    st["hunt"] += 1
+                    if st["hunt"] >= st["budget"]:
+                        st["hunt"] = 0
+                        st["budget"] = min(st["budget"] * 2, 1 << 20)
+                        self._handoff(me, to=o["name"], where=self._where(frame))
         elif k == "insert":
             # single insertion: thread `thread` runs until its `at_line`-th own line event, then every other thread
             # runs (one after the other, each to completion unless it blocks), then it resumes; no other pre-emption
